@@ -99,6 +99,21 @@ func runC02(c *fw.Ctx, idx int) fw.Result {
 	for tries := 0; idx%50 == 0 && tries < 5 && len(sf.Queries) < 40; tries++ {
 		sf = gen.MakeSam(r, ref, pr)
 	}
+	if len(sf.Queries) >= 2 && r.Chance(0.15) {
+		// a query whose name is another query's name plus ".fasta" (names derived from file names):
+		// the two are different queries and get different files
+		j := r.Intn(len(sf.Queries) - 1)
+		k := j + 1 + r.Intn(len(sf.Queries)-j-1)
+		old, nn := sf.Queries[k].Name, sf.Queries[j].Name+".fasta"
+		if !strings.Contains(sf.Text, "\n"+nn+"\t") {
+			sf.Text = strings.ReplaceAll(sf.Text, "\n"+old+"\t", "\n"+nn+"\t")
+			sf.Queries[k].Name = nn
+			for ri := range sf.Queries[k].Recs {
+				sf.Queries[k].Recs[ri].Name = nn
+			}
+			res.Count("cases_with_query_named_like_a_file", 1)
+		}
+	}
 	omitIns := r.Chance(0.25)
 	omitRef := r.Chance(0.25)
 	s, e, wk := window(r, L)
